@@ -44,7 +44,9 @@ PROPS = {
         level_text='At every point of seeded solve/abort/setBasis histories where hasBasis() holds, the reported basis is checked against the '
                    'exact model: one basic variable per row, bound-consistent nonbasic statuses, agreement of the three query styles, exact '
                    'nonsingularity of solve-produced bases (rational elimination), setBasis/getBasis round trip, and reuse of the basis in the '
-                   'same and in a new solver object. Sampling of inputs x configurations x history points.',
+                   'same and in a new solver object; (h) after bound-class changes (fix / unfix / free a column, drop or add a row side) and row/column '
+                   'removal through the permutation interface while a basis is held, the statuses are re-checked against the new bounds. '
+                   'Sampling of inputs x configurations x history points.',
         level_note='trusts GMP arithmetic; reuse is compared with a from-scratch solve of the same configuration and skipped when that solve '
                    'itself contradicts certified truth (that is C01/C02 territory)',
         technique='runtime monitoring: basis-invariant oracle with exact rank test at hooked history points, under ASan+UBSan',
@@ -52,7 +54,7 @@ PROPS = {
             dict(name='exact-forcebasic-asan', harness='h_exact', flavour='asan', cases=300 if t == 'quick' else 3000, crash_markers=['lifting=1', 'iterative_refinement=0']),
             dict(name='exact-forcebasic-opt', harness='h_exact', flavour='opt', cases=1200 if t == 'quick' else 12000, crash_markers=['lifting=1', 'iterative_refinement=0'])],
         minima=lambda t: {'c04g.forcebasic_checked': 20, 'c04.basis_checked': 500, 'c04.setbasis_roundtrip': 300, 'c04.reuse.new-object': 200, 'c04.reuse.same-object': 200,
-                          'c04.setbasis_fuzz_regular': 50, 'basis.exact_regularity_checks': 500},
+                          'c04.setbasis_fuzz_regular': 50, 'basis.exact_regularity_checks': 500, 'c04.basis_after_boundclass_change_checked': 1500},
         eval_counter='cases', distinct_set='nontrivial',
         rule='case k -> (LP family, seeded LP, configuration, scenario in {solve, aborted solve, user basis}); distinct = hash(LP signature x '
              'configuration x scenario); non-trivial = a basis was available and checked',
